@@ -15,7 +15,7 @@ LEVEL = "exploration"
 TECHNIQUE = ("runtime reference-model monitor: autograd gradients (first order with/without create_graph, second order) of random "
              "contractions of solve() vs the same contractions of a dense per-column torch.linalg.solve built from the same leaves; "
              "call-history spy on the solver entry points (method and options of every forward/backward solve)")
-LEVEL_TEXT = ("Held on every generated system of the run: 26 operator parametrisations (leaf and derived tensors, matrix-free with any "
+LEVEL_TEXT = ("Held on every generated system of the run: 27 operator parametrisations (leaf and derived tensors, matrix-free with any "
               "subset of products, Hermitian-flagged, low-rank, composed +,-,*,@,.H, shared leaves, Jacobian operator) x 7 forward "
               "methods x 9 backward settings x {no E, E, E+M, M without E} x 12 broadcast patterns x {float64, complex128 with complex "
               "E and complex Hermitian M}; every leaf gradient (B, E, leaves of A and M, unused parameters) is compared at first order "
@@ -32,9 +32,10 @@ RULE = ("cases drawn by seeded sampling: forward method x backward setting cycle
 MIN_NONTRIVIAL = {"quick": 250, "thorough": 3000}
 ASSUMPTIONS = [
     "cond(A - e_c M) <= 40 for every column and batch element (E is re-drawn / shrunk otherwise); M is Hermitian positive definite with cond <= 5",
-    "Hermitian-flagged operators (A or M) are parametrised through a symmetrising map of their leaves, so that every perturbation of a "
-    "leaf keeps the operator Hermitian (an unconstrained leaf that merely happens to be symmetric and is flagged/auto-detected Hermitian "
-    "is outside the generator: the flag is a promise about the whole parametrisation)",
+    "Hermitian-flagged matrix-free operators (A or M) and every M are parametrised through a symmetrising map of their leaves, so that every "
+    "perturbation of a leaf keeps the operator Hermitian (the flag is a promise about the whole parametrisation); the one exception is the "
+    "class 'dense_autoherm': an unconstrained leaf with a Hermitian value behind LinearOperator.m (auto-detected or flagged), compared with "
+    "the unconstrained derivative of W -> W^-1 B",
     "iterative forward/backward solvers run with rtol=1e-10, atol=1e-12 (max_niter raised to 10n+20) except in the 'default tolerance' "
     "classes (forward tolerance 'default', backward settings 'default' and 'cg_default': rtol 1e-6, cond <= 12) whose comparison tolerance is scaled accordingly",
     "comparison: |g - g_ref| <= tol * (|g_ref| + 0.02 * max_leaf |g_ref|) per leaf, tol = max(2e-8, 300 * t * cond) first order, "
@@ -63,7 +64,7 @@ KMAX = 40.0
 AKINDS_ANY = ["dense", "mv_scaled", "mv_inside", "mv_rmv_prod", "all_shift", "mm_list", "add", "sub", "mul", "matmul", "adj",
               "adj_mv", "nested", "lowrank", "lowrank_rmv", "lowrank_const", "jac"]
 AKINDS_HERM = ["dense_sym", "herm_mv", "herm_inside", "add_shared", "add_herm", "lowrank_herm", "lowrank_const_herm", "mul_herm",
-               "adj_herm"]
+               "adj_herm", "dense_autoherm"]
 AKINDS = AKINDS_ANY + AKINDS_HERM
 MKINDS = ["dense_sym", "herm_mv", "herm_all", "herm_inside", "lowrank_herm", "mul_herm", "shared"]
 FWD_CYCLE = ["cg", "bicgstab", "custom_exactsolve", "broyden1", "gmres", None]
@@ -290,6 +291,13 @@ def build_A(kind, n, BA, dt, spectrum, kappa, rng, tgen, counter, want_unused=Fa
     if kind == "dense":
         L["A.W"] = _leaf(A0)
         flag = None if spectrum == "nonherm" and n > 1 else False
+        return Built(L, lambda lv: xitorch.LinearOperator.m(lv["A.W"], is_hermitian=flag), lambda lv: lv["A.W"] * 1.0)
+    if kind == "dense_autoherm":
+        # an UNCONSTRAINED leaf matrix whose value happens to be Hermitian: LinearOperator.m auto-detects (or is told) is_hermitian=True;
+        # the reference differentiates W -> W^-1 B in every direction (the only Hermitian-flagged class not parametrised through a
+        # symmetrising map: a dense-wrapped operator has the full matrix and can form its adjoint as a function of it)
+        L["A.W"] = _leaf(A0)
+        flag = rng.choice([None, None, True])
         return Built(L, lambda lv: xitorch.LinearOperator.m(lv["A.W"], is_hermitian=flag), lambda lv: lv["A.W"] * 1.0)
     if kind == "dense_sym":
         L["A.W"] = _leaf(A0 + skew(BA))
@@ -689,7 +697,7 @@ def run_case(desc):
     else:
         raise HarnessBug("unknown backward setting %s" % bck)
 
-    cfg = "%s:%s:%s%s" % (fwd or "auto", bck, emode, ":realE" if real_e else "")
+    cfg = "%s:%s:%s%s%s" % (fwd or "auto", bck, emode, ":realE" if real_e else "", ":autoherm" if akind == "dense_autoherm" else "")
     if real_e:
         obs.count("real_E_in_complex_system")
     obs.note(kappa=kap, complexE=complexE, leaves={k: list(v.shape) for k, v in leaves.items()}, full_batch=list(full_b), frozen=frozen)
